@@ -23,18 +23,20 @@ CFLAGS = ["-g", "-O1", "-fno-omit-frame-pointer", "-D_GNU_SOURCE", "-DIVYKIS_VER
 WRAPS_VK = ["clock_gettime", "epoll_wait", "epoll_pwait2", "poll", "ppoll", "epoll_ctl", "epoll_create",
             "timerfd_create", "timerfd_settime", "close", "pipe", "syscall", "read", "write"]
 
+WRAPS_LOCK = ["pthread_mutex_lock", "pthread_mutex_unlock", "pthread_mutex_destroy"]
 WRAPS_SCHED = ["pthread_mutex_lock", "pthread_mutex_unlock", "pthread_mutex_destroy", "pthread_spin_lock", "pthread_spin_unlock",
                "pthread_create", "pthread_join"]
 
 # target -> (harness sources, wrap symbols, sanitizer flavour, extra link flags)
 TARGETS = {
-    "loop": (["vfz.c", "vk.c", "t_loop.c"], WRAPS_VK, "asan", []),
+    "loop": (["vfz.c", "vk.c", "vlock.c", "t_loop.c"], WRAPS_VK + WRAPS_LOCK, "asan", []),
     "avl": (["vfz.c", "t_avl.c"], [], "asan", []),
-    "timers": (["vfz.c", "vk.c", "t_timers.c"], WRAPS_VK, "asan", []),
+    "timers": (["vfz.c", "vk.c", "vlock.c", "t_timers.c"], WRAPS_VK + WRAPS_LOCK, "asan", []),
     "pump": (["vfz.c", "t_pump.c"], ["read", "write", "splice", "shutdown"], "asan", []),
     "mt": (["vfz.c", "vk.c", "vsched.c", "t_mt.c"], WRAPS_VK + WRAPS_SCHED, "asan", []),
     "sig": (["vfz.c", "vk.c", "vsched.c", "t_sig.c"], WRAPS_VK + WRAPS_SCHED, "asan", []),
-    "ino": (["vfz.c", "vk.c", "t_ino.c"], WRAPS_VK, "asan", []),
+    "ino": (["vfz.c", "vk.c", "vlock.c", "t_ino.c"], WRAPS_VK + WRAPS_LOCK, "asan", []),
+    "popen": (["vfz.c", "vk.c", "vlock.c", "t_popen.c"], WRAPS_VK + WRAPS_LOCK + ["fork", "wait4", "kill"], "asan", []),
     "wait": (["vfz.c", "vk.c", "vsched.c", "t_wait.c"], WRAPS_VK + WRAPS_SCHED + ["fork", "wait4", "kill"], "asan", []),
 }
 
@@ -125,6 +127,11 @@ def build(target, quiet=False):
     if r.returncode != 0:
         sys.stderr.write("LINK FAILED: %s\n%s\n" % (" ".join(cmd), r.stdout))
         raise SystemExit(2)
+    if target == "popen":
+        r = sh(["gcc", "-O1", "-o", os.path.join(bdir, "popen_child"), os.path.join(HARNESS, "popen_child.c")])
+        if r.returncode != 0:
+            sys.stderr.write("helper build failed: %s\n" % r.stdout)
+            raise SystemExit(2)
     os.rename(exe + ".tmp", exe)
     return exe
 
@@ -179,11 +186,25 @@ def crash_tag(err):
 
 def run_case(exe, casefile, params=(), verbose=False, timeout=120):
     cmd = [exe, "run", casefile] + list(params) + (["verbose=1"] if verbose else [])
-    try:
-        p = subprocess.run(cmd, stdout=subprocess.PIPE, stderr=subprocess.PIPE, env=ENV_BASE, timeout=timeout)
-    except subprocess.TimeoutExpired:
-        return dict(v="inc", tag="timeout", msg="wall-clock budget", log="", prop="", stderr="")
-    out = p.stdout.decode("utf-8", "replace"); err = p.stderr.decode("utf-8", "replace")
+    # output goes to temporary files, not pipes: a helper process left behind by the case must not be able to keep us waiting;
+    # the case runs in its own session so that such helpers can be killed afterwards
+    import tempfile, signal as _sig
+    with tempfile.TemporaryFile() as fo, tempfile.TemporaryFile() as fe:
+        p = subprocess.Popen(cmd, stdout=fo, stderr=fe, env=ENV_BASE, start_new_session=True)
+        timed_out = False
+        try:
+            p.wait(timeout=timeout)
+        except subprocess.TimeoutExpired:
+            timed_out = True
+        try:
+            os.killpg(p.pid, _sig.SIGKILL)
+        except OSError:
+            pass
+        p.wait()
+        if timed_out:
+            return dict(v="inc", tag="timeout", msg="wall-clock budget", log="", prop="", stderr="")
+        fo.seek(0); fe.seek(0)
+        out = fo.read().decode("utf-8", "replace"); err = fe.read().decode("utf-8", "replace")
     r = parse_res(out)
     log = "\n".join(l[4:] for l in out.splitlines() if l.startswith("LOG "))
     if r and r["v"] in ("ok", "viol", "inc") and (p.returncode in (0, 3, 4)):
